@@ -1,6 +1,7 @@
 import Holpy.C19.DerivProofs
 import Holpy.C19.IvalProofs
 import Holpy.C19.IntegralProofs
+import Holpy.C19.LinProofs
 import Holpy.C19.ParseProofs2
 /-
 C19 — property theorems (statements only; proofs live in DerivProofs*, IvalProofs*, IntegralProofs).
@@ -87,58 +88,58 @@ example : WF (sub (mul (neg (pow (var "x") (num 2))) (pow (const (-3/2 : Rat)) (
     (integral "t" (num 0) (var "x") (div (var "t") (add (num 1) (var "t"))))) := by
   simp [WF, keywords, Expr.isConst]
 
-/-! ### Linearity and splitting of definite integrals (the logic cores of `Linearity`, `SplitRegion`) -/
+/-! ### `Linearity` and `SplitRegion` preserve the value of a definite integral -/
 
-/-- `INT (f + g) = INT f + INT g` under interval integrability of both parts. -/
-theorem linearity_value_add (v : String) (lo hi f g : Expr) (env : String → ℝ)
-    (hf : IntervalIntegrable (integrand v f env) volume (den lo env) (den hi env))
-    (hg : IntervalIntegrable (integrand v g env) volume (den lo env) (den hi env)) :
-    den (integral v lo hi (add f g)) env = den (add (integral v lo hi f) (integral v lo hi g)) env :=
-  lin_add v lo hi f g env hf hg
+/-- `linearityM` (Linearity.lean) mirrors `rules.Linearity.eval` on definite integrals — the recursion over `+`, `-`,
+unary `-`, and `decompose_expr_factor` moving the factors / divisors free of the integration variable out — and
+is compared with the real rule on every run.  The expression it returns has the value of the integral, for every
+fuel, under `LinOK`: every sum/difference that is split has interval-integrable parts and every factor moved out
+has a value independent of the integration variable (the conditions the rule needs and the code does not check). -/
+theorem linearity_value (fuel : Nat) (v : String) (lo hi body : Expr) (env : String → ℝ)
+    (h : LinOK v lo hi env fuel body) :
+    den (linearityM fuel (integral v lo hi body)) env = den (integral v lo hi body) env :=
+  linearityM_value fuel v lo hi body env h
 
-/-- `INT (f - g) = INT f - INT g`. -/
-theorem linearity_value_sub (v : String) (lo hi f g : Expr) (env : String → ℝ)
-    (hf : IntervalIntegrable (integrand v f env) volume (den lo env) (den hi env))
-    (hg : IntervalIntegrable (integrand v g env) volume (den lo env) (den hi env)) :
-    den (integral v lo hi (sub f g)) env = den (sub (integral v lo hi f) (integral v lo hi g)) env :=
-  lin_sub v lo hi f g env hf hg
+/-- The "constant factor" hypothesis of `LinOK` holds automatically for closed-form integrands: the factors
+`Linearity` moves out are those in which the variable does not occur (`contains_var`). -/
+theorem linearity_const_factor_of_closed (v : String) (body : Expr) (env : String → ℝ) (h : Closed body) :
+    ConstIn v (splitFactors v body).1 env := splitFactors_constIn_of_closed v body env h
 
-/-- `INT (-f) = -INT f`. -/
-theorem linearity_value_neg (v : String) (lo hi f : Expr) (env : String → ℝ) :
-    den (integral v lo hi (neg f)) env = den (neg (integral v lo hi f)) env := lin_neg v lo hi f env
+/-- `splitM` mirrors `SplitRegion(c).eval` (branch without principal value): `INT_a^b f = INT_a^c f + INT_c^b f` under
+integrability on both parts (any `c`, also outside `[a, b]`). -/
+theorem split_value (c : Expr) (v : String) (lo hi f : Expr) (env : String → ℝ)
+    (h1 : IntOK v lo c f env) (h2 : IntOK v c hi f env) :
+    den (splitM c (integral v lo hi f)) env = den (integral v lo hi f) env :=
+  splitM_value c v lo hi f env h1 h2
 
-/-- `INT (c * f) = c * INT f` when the value of `c` does not depend on the integration variable. -/
-theorem linearity_value_const_mul (v : String) (lo hi c f : Expr) (env : String → ℝ)
-    (hc : ∀ x, den c (Function.update env v x) = den c env) :
-    den (integral v lo hi (mul c f)) env = den (mul c (integral v lo hi f)) env :=
-  lin_const_mul v lo hi c f env hc
+/-- Non-vacuity: `INT x:[0,2]. a * x / b - 3 * x` — `Linearity` returns `a / b * INT x - 3 * INT x` and the
+hypotheses hold (continuous integrands, factors free of `x`). -/
+example : linearityM 10 (integral "x" (num 0) (num 2) (sub (div (mul (var "a") (var "x")) (var "b")) (mul (num 3) (var "x")))) =
+    sub (mul (div (var "a") (var "b")) (integral "x" (num 0) (num 2) (var "x")))
+        (mul (num 3) (integral "x" (num 0) (num 2) (var "x"))) := by decide +kernel
 
-/-- `INT (f / c) = (INT f) / c` when the value of `c` does not depend on the integration variable. -/
-theorem linearity_value_div_const (v : String) (lo hi c f : Expr) (env : String → ℝ)
-    (hc : ∀ x, den c (Function.update env v x) = den c env) :
-    den (integral v lo hi (div f c)) env = den (div (integral v lo hi f) c) env :=
-  lin_div_const v lo hi c f env hc
-
-/-- A constant factor that syntactically does not contain the integration variable (the test `Linearity` makes
-with `contains_var`) qualifies, on the closed-form fragment. -/
-theorem linearity_const_of_not_containsVar (v : String) (c : Expr) (env : String → ℝ) (hcl : Closed c)
-    (hv : c.containsVar v = false) : ∀ x, den c (Function.update env v x) = den c env :=
-  fun x => den_update_free x hcl hv
-
-/-- `SplitRegion` (non-CPV branch): `INT_a^b f = INT_a^c f + INT_c^b f` under integrability on both parts
-(any `c`, also outside `[a, b]`). -/
-theorem split_value (v : String) (lo hi c f : Expr) (env : String → ℝ)
-    (h1 : IntervalIntegrable (integrand v f env) volume (den lo env) (den c env))
-    (h2 : IntervalIntegrable (integrand v f env) volume (den c env) (den hi env)) :
-    den (integral v lo hi f) env = den (add (integral v lo c f) (integral v c hi f)) env :=
-  split v lo hi c f env h1 h2
-
-/-- Non-vacuity: the integrand `x` is interval integrable on every interval, so `INT x:[0,2]. x` splits at 1. -/
 example (env : String → ℝ) :
-    den (integral "x" (num 0) (num 2) (var "x")) env =
-      den (add (integral "x" (num 0) (num 1) (var "x")) (integral "x" (num 1) (num 2) (var "x"))) env := by
+    LinOK "x" (num 0) (num 2) env 10 (sub (div (mul (var "a") (var "x")) (var "b")) (mul (num 3) (var "x"))) := by
+  have hx : ∀ x : ℝ, Function.update env "x" x "x" = x := fun x => by simp
+  have ha : ∀ x : ℝ, Function.update env "x" x "a" = env "a" := fun x => by simp [Function.update]
+  have hb : ∀ x : ℝ, Function.update env "x" x "b" = env "b" := fun x => by simp [Function.update]
+  refine ⟨?_, ?_, ⟨?_, trivial⟩, ⟨?_, trivial⟩⟩
+  · apply Continuous.intervalIntegrable
+    unfold integrand
+    simp only [den, hx, ha, hb]
+    fun_prop
+  · apply Continuous.intervalIntegrable
+    unfold integrand
+    simp only [den, hx]
+    fun_prop
+  · exact linearity_const_factor_of_closed "x" _ env (by simp [Closed])
+  · exact linearity_const_factor_of_closed "x" _ env (by simp [Closed])
+
+/-- Non-vacuity: `INT x:[0,2]. x` splits at 1. -/
+example (env : String → ℝ) :
+    den (splitM (num 1) (integral "x" (num 0) (num 2) (var "x"))) env = den (integral "x" (num 0) (num 2) (var "x")) env := by
   have hid : integrand "x" (var "x") env = fun x => x := by
     funext x; simp [integrand, den]
-  apply split_value <;> rw [hid] <;> exact continuous_id.intervalIntegrable _ _
+  apply split_value <;> unfold IntOK <;> rw [hid] <;> exact continuous_id.intervalIntegrable _ _
 
 end Holpy.C19
